@@ -304,6 +304,30 @@ def run(sched):
                 fired.append(t2)
         for trig in fired:
             w.loop.call_later(trig["delay"] / 1024.0, inject_rx, trig["rx"])
+        # autoreply rules: a minimal reactive peer (piggy-backed answers echoing token / message ID and,
+        # on demand, the Block1 option), each rule at most `max` times
+        if f["cls"] == "req":
+            for rule in sched.get("autoreply", ()):
+                mt = rule.get("match", {})
+                if "b1more" in mt and f["b1m"] != mt["b1more"]:
+                    continue
+                if "observe" in mt and f["obs"] != mt["observe"]:
+                    continue
+                if "r" in mt and r != mt["r"]:
+                    continue
+                rule["_n"] = rule.get("_n", 0) + 1
+                if rule["_n"] > rule.get("max", 1 << 30):
+                    continue
+                rx = {"r": r, "ty": "ACK", "code": rule.get("code", 69), "mid": f["mid"], "tok": f["tok"],
+                      "payload": rule.get("payload", "")}
+                if rule.get("echo_b1") and f["b1n"] >= 0:
+                    rx["b1"] = [f["b1n"], f["b1m"], f["b1s"]]
+                if rule.get("observe") is not None:
+                    rx["observe"] = rule["observe"]
+                if rec["sock"] == "other":
+                    rx["ctx"] = "other"
+                w.loop.call_later(rule.get("delay", 5) / 1024.0, inject_rx, rx)
+                break
 
     def on_read(data, src, anc):
         r = rnum(src)
@@ -518,7 +542,8 @@ def run(sched):
                         m.remote = UDP6EndpointAddress(("ff02::fd", 5683, 0, 1), which._verif["mint"])
                     else:
                         m.remote = w.remote(which, step["r"])
-                    ev("submit", r=step["r"], q=q, con=bool(step.get("con")), x=step.get("ctx", ""))
+                    ev("submit", r=step["r"], q=q, con=bool(step.get("con")), x=step.get("ctx", ""),
+                       obs=step["observe"] if step.get("observe") is not None else -1)
                     req = which.request(m, handle_blockwise=bool(step.get("blockwise", False)))
                 except Exception as e:
                     ev("done", q=q, cls=err_class(e), x="sync:" + type(e).__name__)
